@@ -707,18 +707,20 @@ func iStringWidth(in *Interp, fn *ssa.Function, a []Value) Value {
 		}
 	}
 	for _, b := range s.b {
-		if b.op == OpConst {
-			run = append(run, byte(b.val))
+		val, known, pr, npr, asc := in.byteClass(b)
+		if known {
+			run = append(run, byte(val))
 			continue
 		}
 		flush()
-		pr, asc := asciiPrintableDomain(b)
 		if !asc {
 			okAdditive = false
 			break
 		}
 		if pr {
 			sum = in.tt.Bin(OpAdd, sum, in.tt.Const(64, 1))
+		} else if npr {
+			// width 0
 		} else {
 			isP := in.tt.And(in.tt.Bin(OpUle, in.tt.b8[0x20], b), in.tt.Bin(OpUle, b, in.tt.b8[0x7e]))
 			sum = in.tt.Bin(OpAdd, sum, in.tt.Ite(isP, in.tt.Const(64, 1), in.tt.Const(64, 0)))
